@@ -61,20 +61,65 @@ def first_k(x, src, k):
     return And(x.r != LNONE, fresh_list(x, x.r), h.llen(x.r) == m, fa_int(0, m, lambda i: h.litem(x.r, i) == h0.litem(src, i), lambda i: h.litem(x.r, i)))
 
 
-@contract(NQ + "find_all", props=("C09",))
+def branch_seq(x, h0):
+    """the sequence a branch search scans: [self] + Pre(self) with add_self, else Pre(self)"""
+    Pre = L.pre_post(h0)[0]
+    s = x.a.self
+    return L.App(L.Single(s), Pre(s)) if z3.is_true(x.a.add_self) else Pre(s)
+
+
+@contract(NQ + "find_all", props=("C09", "C02"))
 def _(c):
-    """Branch-level search: decided by the bounded tier (generator + closures); its contract is
-    only *used* here."""
-    c.param("self", "node").param("data", "none", "data").param("match", "none", "cb").param("data_id", "none", "id").param("add_self", "bool").param("max_results", "none", "int")
+    """Branch-level search.  The data / data_id path is proved: the result is the order-preserving filter of
+    the branch's pre-order sequence by `node.data_id == id`, cut to the first k.  The `match` path (regex /
+    predicate through the generator `_search`) is only *assumed* here and decided by the bounded tier."""
+    c.param("self", "node").param("data", "none", "data").param("match", "none", "cb").param("data_id", "none", "id").param("add_self", "true", "false").param("max_results", "none", "int")
+    c.families = ("plain",)
     c.result_tag = "lref"
     c.modifies("llen", "litem", "lalloc")
-    c.assumed = True
-    c.assumed_reason = "Node.find_all/_search: generator + lambdas over re; checked by the bounded tier (native/props/c09.py)"
-    c.ensures("fresh result list", lambda x: And(x.r != LNONE, fresh_list(x, x.r), unchanged_lists(x)))
-    c.may_raise("Callback", ensures=None)
+    c.assumed_variants = lambda tags: tags["data"] == "none" and tags["data_id"] == "none"
+    c.prune = True  # a computed id is never None: the fall-through to `_search` is infeasible on the id path
+    c.assumed_variants_reason = "Node.find_all(match=...) / _search: generator + lambdas over re; checked by the bounded tier (native/props/c09.py)"
+    c.requires("wf, self in P(T)", lambda x: And(wf0(x), self_in_P(x)))
+    c.requires("limit >= 0", lambda x: x.a.max_results >= 0 if x.a.tag("max_results") == "int" else True)
     _both = lambda x: x.a.tag("data") != "none" and x.a.tag("data_id") != "none"  # noqa: E731
     _idpath = lambda x: x.a.tag("data") != "none" or x.a.tag("data_id") != "none"  # noqa: E731
     c.raises("AssertionError", when=lambda x: z3.BoolVal(_both(x) or (_idpath(x) and x.a.tag("match") != "none")), ensures=unchanged_all, props=("C13",))
+    c.may_raise("Callback", ensures=None, name="callback raises")
+
+    def post(x):
+        base = And(x.r != LNONE, fresh_list(x, x.r), unchanged_lists(x))
+        if not _idpath(x):
+            return base  # match path: assumed (bounded tier)
+        h0, h, r = x.h0, x.h, x.r
+        seq = branch_seq(x, h0)
+        n = L.Len(seq)
+        item = lambda k: L.At(seq, k)  # noqa: E731
+        did = id_of(x)
+        phi = lambda y: L.v_eq(h0._data_id(y), did)  # noqa: E731
+        lim = x.a.max_results if x.a.tag("max_results") == "int" else None
+        lr = h.llen(r)
+        import contracts.vocab as V
+
+        if V.RT_EVAL is not None:  # run-time cross-check: decided directly on the snapshot
+            E = V.RT_EVAL
+            keep = [E.value(item(z3.IntVal(k))) for k in range(E.value(n)) if E.holds(phi(item(z3.IntVal(k))))]
+            if lim is not None and E.value(lim) > 0:
+                keep = keep[: E.value(lim)]
+            got = [E.value(h.litem(r, z3.IntVal(i))) for i in range(E.value(lr))]
+            return And(base, z3.BoolVal(len(got) == len(keep) and all(a is b for a, b in zip(got, keep))))
+        emb, inv = wit(x, "emb", (L.I, L.I)), wit(x, "inv", (L.I, L.I))
+        i, j, k = L.fresh("i", I), L.fresh("j", I), L.fresh("k", I)
+        limited = And(lim > 0, lr >= lim) if lim is not None else z3.BoolVal(False)  # the limit bites: only the matches up to the last one taken
+        return And(
+            base, lr >= 0, lr <= n, (Implies(lim > 0, lr <= lim) if lim is not None else True),
+            ForAll([i], Implies(And(0 <= i, i < lr), And(0 <= emb(i), emb(i) < n, h.litem(r, i) == item(emb(i)), phi(item(emb(i))), inv(emb(i)) == i)), patterns=[h.litem(r, i), emb(i)]),
+            ForAll([i, j], Implies(And(0 <= i, i < j, j < lr), emb(i) < emb(j)), patterns=[z3.MultiPattern(emb(i), emb(j))]),
+            # no match is skipped: every match is in the result, except those behind the last one taken when the limit bites
+            ForAll([k], Implies(And(0 <= k, k < n, phi(item(k)), Or(Not(limited), And(lr > 0, k <= emb(lr - 1)))), And(0 <= inv(k), inv(k) < lr, emb(inv(k)) == k, h.litem(r, inv(k)) == item(k))), patterns=[inv(k), item(k)]),
+        )
+
+    c.ensures("result == [n in ([self] +) Pre(self) | n.data_id == id][:k] by identity, in order (k = 0 or None: no limit)", post)
 
 
 @contract(NQ + "find_first", props=("C09",))
